@@ -29,8 +29,13 @@ THEOREMS = [
              "length changes between polls (it reads task_status; replayed on the engine) -- weakest hypothesis: the item "
              "count is stable while the entry has a table; D1 wipes the table under running items; a retry re-offers items on "
              "the same record (once per table, not per record); D24 leaves the workflow canceling forever"},
-    {"name": "(tested, not proved) drain before complete and succeeds iff all items succeed under stable item counts; result "
-             "order; all n offered", "strength": "T", "text": "monitor c12"},
+    {"name": "C12c_drain / C12c_item_in_flight_record_active / C12c_succeeded_iff_all_items_succeeded (props/C12c.v)", "strength": "F",
+     "text": "RECORD LEVEL, along histories whose computed flags stay false (no fault, no table wiped, and the monitor run_odd "
+             "silent -- its substantive clause: no poll renders a different item count for an entry that has a table): an item "
+             "in flight implies its task record is active, not completed, not retrying (DRAIN: a completed record has no item "
+             "in flight); the record is succeeded after an item report only if that report and every other slot succeeded, "
+             "and then it is (or is retried when the policy says so)"},
+    {"name": "(tested, not proved) result order; all n offered when nothing fails", "strength": "T", "text": "monitor c12"},
 ]
 TRUSTED_BASE = common.TRUSTED_BASE_COMMON
 ASSUMPTIONS = ["the window theorems are about choose_items, the model of _evaluate_task_actions, applied to the recorded item "
